@@ -9,7 +9,7 @@ contains(a, b) implies the licenses of simplified b occur in a.
 """
 import random
 
-from core import imp, run_model, enc_expr, build_expr
+from core import enc_str, imp, run_model, enc_expr, build_expr
 import algebra
 import gen
 
@@ -138,6 +138,14 @@ def run(rep, tier, seed):
         if b is None:
             b = gen.gen_tree(rng, depth=rng.randint(0, 2), maxar=3, keys=KEYS)
         pairs.append((a, b, kind))
+    # a flat node all of whose operands are one license is that license (repetition), on both sides and nested once
+    for at in ([0, [enc_str('mit'), 0]], [1, [enc_str('gpl'), 0], [enc_str('cp'), 1]], [0, [enc_str('a b'), 0]]):
+        x = [0, at]
+        for op in (1, 2):
+            for k in (2, 3):
+                pairs.append(([op, [x] * k], x, 'rewrite'))
+                pairs.append((x, [op, [x] * k], 'rewrite'))
+            pairs.append(([op, [x, [3 - op, [x, x]]]], x, 'rewrite'))
     res = run_model([(6, [a, b]) for a, b, _ in pairs])
     rep.compared = 0
     rep.broken = []
